@@ -194,6 +194,15 @@ class Interp(CallMixin):
             if v.truthy is not None:
                 return v.truthy
             return self.fork(("truth", v.oid), f"truth({v.label})")
+        if isinstance(v, Obj) and v.cls in self.model.classes:
+            cls_ = self.model.classes[v.cls]
+            for dunder in ("__bool__", "__len__"):
+                m = self.model.find_method(cls_, dunder)
+                if m is not None:
+                    r = self.call(FuncVal(fn=m, self_obj=v, module=m.module), [], {}, node, None)
+                    return self.truth(r, node)
+            if "typing.NamedTuple" in self.model.mro(v.cls):
+                return bool(self.model.attrs_fields(cls_))
         if isinstance(v, (Obj, FuncVal, ClassVal, ExtVal, CoroVal, BoundExt)):
             return True
         raise Unsupported(f"truthiness of {v!r}")
